@@ -229,6 +229,9 @@ type BuiltTx struct {
 	EthType    int
 	Creates    *common.Address
 	AVS        *AVSTx
+	ViaForwarder bool           // sent to the gateway forwarder contract, which CALLs Precompile
+	Reverting    bool           // the forwarder reverts after the inner call
+	Precompile   common.Address
 }
 
 func sdkDur(sec int64) time.Duration { return time.Duration(sec) * time.Second }
@@ -274,6 +277,29 @@ func (r *Run) cosmosTx(ctx sdk.Context, from Account, bt *BuiltTx, msgs ...sdk.M
 	return nil
 }
 
+// gatewayCall sends a gateway-only precompile call. With an EOA gateway (default) the configured
+// gateway account (M=0) or another funded account (M=1) calls the precompile directly. With a
+// CONTRACT gateway (cfg.GatewayContract) the configured gateway address is a forwarder contract:
+// M=0 any account calls the forwarder, which CALLs the precompile (contract.CallerAddress = the
+// gateway contract); M=2 the same but the forwarder REVERTs after the precompile call returned,
+// so everything the precompile did must be rolled back with the frame; M=1 an account calls the
+// precompile directly (not the gateway).
+func (r *Run) gatewayCall(ctx sdk.Context, op Op, precompile common.Address, data []byte, bt *BuiltTx) error {
+	if !r.W.Cfg.GatewayContract || op.M == 1 {
+		return r.ethCall(ctx, r.callerFor(op), precompile, data, bt)
+	}
+	flag := byte(0)
+	if op.M == 2 {
+		flag = 1
+		bt.Reverting = true
+	}
+	wrapped := append(common.LeftPadBytes(precompile.Bytes(), 32), common.LeftPadBytes([]byte{flag}, 32)...)
+	wrapped = append(wrapped, data...)
+	bt.ViaForwarder = true
+	bt.Precompile = precompile
+	return r.ethCall(ctx, r.W.Users[0], r.W.GatewayContract, wrapped, bt)
+}
+
 // callerFor selects who sends a gateway-only precompile call: M==0 the configured gateway,
 // M==1 an ordinary user (unauthorised).
 func (r *Run) callerFor(op Op) Account {
@@ -316,7 +342,7 @@ func (r *Run) Build(ctx sdk.Context, op Op) (*BuiltTx, error) {
 		if err != nil {
 			return nil, err
 		}
-		return bt, r.ethCall(ctx, r.callerFor(op), AssetsPrecompile, data, bt)
+		return bt, r.gatewayCall(ctx, op, AssetsPrecompile, data, bt)
 	case "del", "und":
 		ai := w.AssetIdx(op.B)
 		a := w.Cfg.Assets[ai]
@@ -340,7 +366,7 @@ func (r *Run) Build(ctx sdk.Context, op Op) (*BuiltTx, error) {
 		if err != nil {
 			return nil, err
 		}
-		return bt, r.ethCall(ctx, r.callerFor(op), DelegationPrecompile, data, bt)
+		return bt, r.gatewayCall(ctx, op, DelegationPrecompile, data, bt)
 	case "assoc":
 		lz := w.Cfg.Chains[((op.D%len(w.Cfg.Chains))+len(w.Cfg.Chains))%len(w.Cfg.Chains)]
 		o := w.Op(op.C)
@@ -351,7 +377,7 @@ func (r *Run) Build(ctx sdk.Context, op Op) (*BuiltTx, error) {
 		if err != nil {
 			return nil, err
 		}
-		return bt, r.ethCall(ctx, r.callerFor(op), DelegationPrecompile, data, bt)
+		return bt, r.gatewayCall(ctx, op, DelegationPrecompile, data, bt)
 	case "dissoc":
 		lz := w.Cfg.Chains[((op.D%len(w.Cfg.Chains))+len(w.Cfg.Chains))%len(w.Cfg.Chains)]
 		bt.StakerID = w.StakerIDFor(op.A, lz)
@@ -360,7 +386,7 @@ func (r *Run) Build(ctx sdk.Context, op Op) (*BuiltTx, error) {
 		if err != nil {
 			return nil, err
 		}
-		return bt, r.ethCall(ctx, r.callerFor(op), DelegationPrecompile, data, bt)
+		return bt, r.gatewayCall(ctx, op, DelegationPrecompile, data, bt)
 	case "ndel", "nund":
 		n := w.Native(op.A)
 		o := w.Op(op.C)
